@@ -451,6 +451,15 @@ def m_chunks(m, st, ctx, args, span):
     return IterV("chunks", d, 0, (n.cval(), exact))
 
 
+@model("std::iter::Iterator::copied", "std::iter::Iterator::cloned")
+def m_iter_copied(m, st, ctx, args, span):
+    # the elements the analysis follows through iterators are scalars (Copy): the adapter yields the same values
+    it = args[0]
+    if isinstance(it, IterV) or (isinstance(it, Adt) and it.path.startswith("__iter::")):
+        return _adapter("Copied", [it], ["iter"])          # yields *x for every &x of the inner iterator (shim copied_next)
+    raise Unsupported("copied/cloned of %r" % (it,))
+
+
 @model("std::iter::Iterator::zip")
 def m_zip(m, st, ctx, args, span):
     a, b = args
@@ -462,8 +471,16 @@ def m_zip(m, st, ctx, args, span):
     elif isinstance(b, Ref) and isinstance(deref(b), Arr):
         b = IterV("slice_mut" if b.mut else "slice", SliceRef(b, 0, len(deref(b).elems), b.mut), 0)
     if not (isinstance(a, IterV) and isinstance(b, IterV)):
-        # (a lazy Zip adapter over map/flat_map sources exists as a shim - __shim::zip_next - but stepping it inside a summarised helper
-        # forks on every element; until that is bounded the combination fails closed: refactors/bold KNOWN_LIMITS B7-r6)
+        def lazy(x, d=0):
+            if d > 4:
+                return False
+            if isinstance(x, IterV):
+                return isinstance(x.a, SliceRef) or lazy(x.a, d + 1)
+            if isinstance(x, Adt) and x.path.startswith("__iter::"):
+                return lazy(x.fields[0], d + 1) and (x.path != "__iter::Zip" or lazy(x.fields[1], d + 1))
+            return False
+        if lazy(a) and lazy(b):
+            return _adapter("Zip", [a, b], ["a", "b"])
         raise Unsupported("zip of %r and %r" % (a, b))
     return IterV("zip", a, b)
 
@@ -654,6 +671,7 @@ def m_step_by(m, st, ctx, args, span):
        "std::iter::range::<impl std::iter::Iterator for std::ops::Range<A>>::next",
        "<std::array::IntoIter<T, N> as std::iter::Iterator>::next", "__shim::next",
        "<std::iter::Zip<A, B> as std::iter::Iterator>::next", "<std::slice::ChunksExactMut<'a, T> as std::iter::Iterator>::next",
+       "<std::iter::Copied<I> as std::iter::Iterator>::next", "<std::iter::Cloned<I> as std::iter::Iterator>::next",
        "<std::slice::ChunksExact<'a, T> as std::iter::Iterator>::next", "<std::slice::ChunksMut<'a, T> as std::iter::Iterator>::next",
        "<std::slice::Chunks<'a, T> as std::iter::Iterator>::next")
 def m_iter_next(m, st, ctx, args, span):
@@ -1444,11 +1462,14 @@ def _next_dispatch(m, st, ctx, args, span):
         return Enter("__shim::flatmap_next", [args[0]])
     if isinstance(it, Adt) and it.path == "__iter::Zip":
         return Enter("__shim::zip_next", [args[0]])
+    if isinstance(it, Adt) and it.path == "__iter::Copied":
+        return Enter("__shim::copied_next", [args[0]])
     return iter_next(m, args[0])
 
 
 for _n in ("__shim::next", "<std::iter::Map<I, F> as std::iter::Iterator>::next", "<std::iter::FlatMap<I, U, F> as std::iter::Iterator>::next",
-           "<std::iter::Zip<A, B> as std::iter::Iterator>::next"):
+           "<std::iter::Zip<A, B> as std::iter::Iterator>::next", "<std::iter::Copied<I> as std::iter::Iterator>::next",
+           "<std::iter::Cloned<I> as std::iter::Iterator>::next"):
     MODELS[_n] = _next_dispatch
 
 
@@ -1605,6 +1626,21 @@ def _mk_zip_next_shim():
     return _body("__shim::zip_next", 1, 11, blocks)
 
 
+def _mk_copied_next_shim():
+    # fn next(self: &mut Copied) -> Option<T> { match next(&mut self.iter) { None => None, Some(r) => Some(*r) } }
+    # locals: 0 ret, 1 self, 2 &mut iter, 3 n, 4 discr, 5 r, 6 v
+    blocks = [
+        _blk([_asg(_pl(2), {"k": "ref", "mut": True, "place": _pl(1, _DEREF, _fld(0, "iter"))})], _call("__shim::next", [_move(2)], 3, 1)),
+        _blk([_asg(_pl(4), {"k": "discr", "place": _pl(3)})], {"k": "switch", "discr": _move(4), "discr_ty": _ANY, "arms": [["0", 3]], "otherwise": 2}),
+        _blk([_asg(_pl(5), {"k": "use", "op": _some_field(3)}),
+              _asg(_pl(6), {"k": "use", "op": {"k": "copy", "place": _pl(5, _DEREF)}}),
+              _asg(_pl(0), _opt(1, [_move(6)]))], {"k": "return"}),
+        _blk([_asg(_pl(0), _opt(0, []))], {"k": "return"}),
+    ]
+    return _body("__shim::copied_next", 1, 7, blocks)
+
+
+SHIMS["__shim::copied_next"] = _mk_copied_next_shim()
 SHIMS["__shim::zip_next"] = _mk_zip_next_shim()
 SHIMS["__shim::collect_arr"] = _mk_collect_arr_shim()
 SHIMS["__shim::map_next"] = _mk_map_next_shim()
